@@ -81,6 +81,27 @@ def sender_body(mido, port, sender, n, sent):
     return body
 
 
+def reusing_sender_body(mido, port, sender, n, sent):
+    """Sends the SAME message object n times, changing its note in between:
+    every delivery must carry the values the object had when it was sent."""
+    def body():
+        out = []
+        m = note(mido, sender, 0)
+        for k in range(n):
+            m.note = 10 * sender + k
+            m.velocity = 64
+            sent.append((sender, k))
+            try:
+                port.send(m)
+                out.append(('sent', sender, k))
+            except Exception as e:
+                out.append(('raised', 'send', type(e).__name__, str(e)))
+                return out
+            m.velocity = 1
+        return out
+    return body
+
+
 def receiver_body(mido, port, n, how='receive'):
     def body():
         out = []
@@ -127,6 +148,17 @@ def programs(mido, size):
                       sender_body(mido, port, 1, ns, sent),
                       receiver_body(mido, port, 2 * ns, how)]
             return bodies, lambda: {'sent': sent, 'keep': port}
+        return make
+
+    def p_reuse():
+        def make():
+            port = mido.ports.EchoPort()
+            assert_coop(port)
+            sent = []
+            bodies = [reusing_sender_body(mido, port, 0, 3, sent),
+                      receiver_body(mido, port, 3)]
+            return bodies, lambda: {'sent': sent, 'keep': port,
+                                    'identity': port}
         return make
 
     def p_device():
@@ -276,6 +308,7 @@ def programs(mido, size):
         'P4c-multiport-send': p_multi_send(),
         'P5-parser-queue': p_queue(),
         'P5b-parser-queue-batch': p_queue(batch=True),
+        'P6-echo-same-object-resent': p_reuse(),
     })
     return progs
 
@@ -477,7 +510,7 @@ def run():
     rep.require(rep.coverage.get('lock_waits', 0) > 0,
                 'no schedule ever made a thread wait for a port lock')
     rep.require(all(d['distinct_outcomes'] >= 2 for k, d in per_prog.items()
-                    if not k.startswith('P3')),
+                    if not k.startswith(('P3', 'P6'))),
                 'a program showed a single outcome: nothing collided')
     return rep
 
